@@ -1,17 +1,92 @@
-HOOK_COMMITS = ["02bc05e"]
+HOOK_COMMITS = ["02bc05e", "18a3dee", "c34a517"]
 NOT_APPLICABLE = {}
 TEXT = {
+ "C17": {
+  "text": "Kernel-checked over tables regenerated from the real GetEmbeddedMethod for all 8 spork regimes: more active "
+          "sporks never remove a method (tables_monotone), gated methods are available exactly when their own spork is "
+          "enforced along the order accelerator/bridge/htlc (gate_in_order_partial; negative witness for out-of-order "
+          "activation); over the spork state machine: activity is monotone in height, on exactly from acknowledged height + "
+          "delay, never at the genesis store, activation cannot be repeated, only the designated keys (community key only "
+          "inside its window) succeed, the unimplemented-spork report is non-empty iff an enforced spork is unknown. Tied "
+          "to the code by scenarios on a real node comparing every call outcome, IsSporkActive on every height, the report "
+          "and method availability around each enforcement height.",
+  "design_ref": "§3 C17",
+  "note": "Method tables enter as generated facts (trusted extractor calling the real function); F17 (out-of-order "
+          "activation exposes features of not-enforced sporks) is a known finding.",
+  "technique": "Lean 4 proof (decide +kernel over regenerated tables; invariants of the spork state machine) + differential scenarios",
+ },
+ "C02": {
+  "text": "Kernel-checked: two stores holding the same sequence of accepted commits are observationally equal whatever "
+          "refused or rolled-back commits, batching or reorganisations happened on the way (commit_determinism), the "
+          "frontier is the fold of the accepted patches (state_is_fold_of_patches), a view at the acknowledged momentum is "
+          "independent of how far the frontier has moved (view_independent_of_frontier), change sets are write-order "
+          "independent; generated fact: no wall-clock/random/goroutine site outside the reviewed list. Tied to the code by "
+          "a producer + five followers under generated delivery schedules with byte-exact state comparison and by feeding "
+          "the real redo patches through the model.",
+  "design_ref": "§3 C02",
+  "note": "Hash functions are parameters; determinism of the Go VM itself is correspondence (multi-node) + AST fact.",
+  "technique": "Lean 4 refinement corollaries + regenerated AST fact + multi-node differential replay",
+ },
+ "C08": {
+  "text": "Kernel-checked: the write plan of a commit / rollback is ONE leveldb batch whose effect is exactly the manager "
+          "model's state transition (add_plan_effect, pop_plan_effect), hence after any number of completed writes the disk "
+          "is the state before or after (crash_atomic_*), and re-delivery from either state reaches the crash-free state; "
+          "negative witness for the per-key plan (finding F6, fixed). Tied to the code without call-site hooks: the journal "
+          "of the live database gives the real write sequence, which is compared with the model's plan, and every cut point "
+          "is materialised as a crash image and checked.",
+  "design_ref": "§3 C08",
+  "note": "leveldb's batch atomicity and journal recovery are trusted; fsync/power-loss durability is out of scope "
+          "(the property speaks of process death).",
+  "technique": "Lean 4 proof about the write plan + journal-derived crash images (fault enumeration at every write boundary)",
+ },
  "C01": {
-  "text": "Abstract ledger model (balances, confirmed sends, receive markers, token contract issue/mint/burn/update) with "
-          "kernel-checked guards (no send above balance, zero-token sends empty) and the negative witness for the "
-          "pre-enforcement-height double receive; the model is replayed against every accepted block of generated "
+  "text": "Kernel-checked invariants of the abstract ledger state machine (balances, confirmed sends, receive markers, "
+          "token contract issue/mint/burn/update), by induction over accepted blocks and lifted to all reachable states: "
+          "above the receiver-enforcement height, recorded supply = sum of balances + sum of unreceived sends for every "
+          "token (conservation); no debit of an accepted block exceeds the balance it is applied to and a burn never "
+          "exceeds the recorded supply (no_underflow, burn_within_supply); supply <= max supply (supply_le_max); only a "
+          "status-1 receive of the token contract changes token storage, every other block - in particular a refunded "
+          "call, which emits exactly the refund - leaves supply and the sum unchanged; negative witness for the "
+          "pre-enforcement-height double receive. The model is replayed against every accepted block of generated "
           "histories on a real node with all balances/supplies compared after each momentum, and a model-free monitor "
           "checks balances + unreceived sends = supply <= max at every momentum and pool state.",
   "design_ref": "§3 C01",
-  "note": "Invariant-by-induction theorems are being extended (see evidence.theorems for what is proved in this run); "
-          "non-token contract methods enter as observed outcomes; below ReceiverMismatchEnforcementHeight the property is "
-          "false of the code (known finding F8).",
-  "technique": "Lean 4 proof over a ledger state machine + differential replay of accepted blocks + conservation monitor",
+  "note": "Non-token contract methods enter as observed outcomes (status, descendants); hash freshness and the send-time "
+          "check total <= max of issue calls are hypotheses of reachability; genesis consistency (T5) is C20; below "
+          "ReceiverMismatchEnforcementHeight the property is false of the code (known finding F8).",
+  "technique": "Lean 4 invariant proof (induction over reachable states) + differential replay of accepted blocks + conservation monitor",
+ },
+ "C04": {
+  "text": "Kernel-checked invariants of the ledger state machine, by induction over accepted blocks (user send, user "
+          "receive, contract receive with observed outcome): receive markers pairwise distinct (no account receives a "
+          "send twice; a second attempt is refused with exactly alreadyReceived / notNext in every later state); above "
+          "the receiver-enforcement height every marker belongs to the send's addressee and every send hash has at most "
+          "one marker on the whole ledger; for every embedded contract the received hashes in acceptance order are a "
+          "prefix (= take front) of the confirmed sends addressed to it in confirmation order. Negative witness: below "
+          "the gate one send gets two markers. The model is the one replayed against every accepted block of generated "
+          "histories on a real node (ledger stream); model-free monitors scan send-hash -> receiving blocks and the FIFO "
+          "order on the real stores.",
+  "design_ref": "§3 C04",
+  "note": "Theorems are about the current chain of one node (T1-T4, N1); reorg/pool-replacement/restart stability (T5) is "
+          "exercised by the stream only. Hash freshness is a hypothesis of reachability. Below "
+          "ReceiverMismatchEnforcementHeight T2/T3 are false of the code (known finding F8).",
+  "technique": "Lean 4 invariant proof (induction over reachable states) + differential replay of accepted blocks + at-most-once/FIFO monitors",
+ },
+ "C09": {
+  "text": "Kernel-checked on the ledger model with contract methods as parameters: every accepted contract receive has "
+          "status applied or refunded, a refund emits exactly the sent amount back to the sender (nothing for amount 0), "
+          "leaves token storage and the contract's balance unchanged; in both cases the contract's balance moves by "
+          "+amount (+mint -burn for the token contract) - sum of descendants with no truncation; afterwards the inbox has "
+          "advanced by exactly one (the received send is marked, the next queued send is next in line); for a non-token "
+          "contract the refund of whatever is next in line is always accepted (it cannot fail for lack of funds), so no "
+          "accepted call can wedge the inbox at the VM-skeleton level; the token contract (methods modelled) always has an "
+          "accepted outcome when the zero token standard has no storage entry. Tied to the code by the ledger stream "
+          "(every embedded method with generated ABI arguments; exact-refund monitor).",
+  "design_ref": "§3 C09",
+  "note": "Panic-freedom/termination of the Go methods and ABI decoder (T3-T5) is correspondence only in this round. The "
+          "model's applySend omits the destination contract's method lookup: in Go a refund to an embedded sender (empty "
+          "call data) is refused, so the refund-always-possible theorem transfers to the code for non-embedded senders only.",
+  "technique": "Lean 4 proof over the ledger state machine + differential replay of accepted blocks + exact-refund monitor",
  },
  "C03": {
   "text": "Supervisor.ApplyBlock (getContext, the nine checks of accountBlockVerifier.all, enoughPlasma/enoughFunds/"
@@ -31,24 +106,55 @@ TEXT = {
   "technique": "Lean 4 proof over a decision-procedure model + AST-extracted check order + differential mutation stream + statement monitor",
  },
  "C07": {
-  "text": "Kernel-checked refinement: the rollback overlay that Get(X) folds from the stored undo patches, laid over the "
-          "frontier, equals the store as of X for every key and every sequence of later commits (view_reconstructs), the "
-          "byte-level tombstone/marker encoding refines the logical level (hist_get_refines, overlay_refines, apply_refines). "
-          "The hand-written model of ldbManager and the view tree is tied to the code by the vdb stream (every read of every "
-          "operation sequence compared) and a shadow-map monitor that states the property directly.",
+  "text": "Kernel-checked on the EXECUTABLE manager model (Ldb = ldbManager, cache-free Get) for every reachable state "
+          "(any sequence of frontier commits, commits on other parents, pops; ghost history invariant proved by "
+          "induction, Lemmas/LdbInv.lean): Get(id) of every version on the chain succeeds and reads, for every key, "
+          "exactly the content at that commit (view_refines, view_refines_has); its ordered prefix scan is the "
+          "key-ordered list of exactly those entries (view_refines_scan_partial, via merged_scan_correct: two-way merged "
+          "iterator over sorted layers = sorted entries of the merged lookup) except empty-valued keys below the "
+          "frontier (F3b, negative theorems); unknown identifiers are refused, commits on a non-frontier parent change "
+          "nothing (add_parent_check), views of the same version agree across states (view_immutable), a cached overlay "
+          "extended above its frontier equals the rebuilt one (cached_overlay_sound), replaying a view's change set "
+          "gives its reads and the change set is independent of write order (changes_replay_*, changes_order_independent). "
+          "The model is tied to the code by the vdb stream (every read of every operation sequence compared) and a "
+          "shadow-map monitor that states the property directly.",
   "design_ref": "§3 C07",
-  "note": "Sequential model; caches not modelled (cache-free Get) — cached real code compared by correspondence; "
-          "goleveldb snapshots trusted; scans of historical views drop empty-valued keys (known finding F3b).",
-  "technique": "Lean 4 refinement proof (induction over commits) + differential correspondence on op sequences",
+  "note": "Sequential model; caches are not state of the model (cache-free Get; the cached path is covered by "
+          "cached_overlay_sound + correspondence); hypotheses of a frontier commit: height = frontier height + 1 < 2^64, "
+          "hash not on the chain, user keys outside the hash-index prefix; goleveldb snapshots trusted; scans of "
+          "historical views drop empty-valued keys (known finding F3b); patches_replay concerns the GetPatch table, "
+          "which the stream does not exercise.",
+  "technique": "Lean 4 refinement proof (induction over reachable manager states) + differential correspondence on op sequences",
  },
  "C06": {
-  "text": "Kernel-checked: the undo patch recorded at commit restores the previous state for every key (rollback_exact), "
-          "popping a whole branch returns to the fork point and committing the other branch ends in the state of a node "
-          "that only saw that branch (branch_switch); tied to ldbManager by the pop-heavy vdb stream with views opened "
-          "before the switch and re-read after it.",
+  "text": "Kernel-checked on the executable manager model: in every reachable state, commit on the frontier followed "
+          "by pop is observationally the identity — same logical frontier, same frontier identifier, and for every "
+          "identifier Get answers alike with views agreeing on every lookup and every ordered prefix scan (pop_add, "
+          "ObsEq); any two reachable states with the same chain of versions are observationally equal whatever "
+          "branches were committed and popped on the way (same_history_same_obs); the undo patch recorded at commit "
+          "restores the previous state for every key (rollback_exact), popping a whole branch returns to the fork "
+          "point (branch_switch); tied to ldbManager by the pop-heavy vdb stream with views opened before the switch "
+          "and re-read after it.",
   "design_ref": "§3 C06",
-  "note": "State-level theorems; pool and consensus-statistics clauses are correspondence only.",
-  "technique": "Lean 4 proof (induction) + differential correspondence on op sequences",
+  "note": "Observational, not raw, equality (tombstones of created keys remain in the raw frontier — witness example); "
+          "pool and consensus-statistics clauses are correspondence only.",
+  "technique": "Lean 4 proof (invariant over reachable manager states) + differential correspondence on op sequences",
+ },
+ "C05": {
+  "text": "Kernel-checked theorems over Go-faithful models: SelectProducers for any sorting algorithm and any rand.Perm "
+          "(exactly NodeCount slots, members only, input-order irrelevance for distinct names, no pillar twice when enough "
+          "pillars), ticker (ToTime(ToTick t) <= t < next, monotone, round trip), schedule (slots tile the tick, producer "
+          "lookup answers exactly at slot starts with the i-th elected pillar), GetMomentumBeforeTime = last momentum with "
+          "ts < t (estimate loop + sort.Search, total for whole-second instants), proof momentum determined by the chain "
+          "prefix, cache = recomputation, and momentum_verify_sound for the verifier whose check ORDER is read from the Go "
+          "AST on every run; all tied to the tree by three differential streams (election, ticker, mverify on a real mock "
+          "chain with every single-field mutation and wrongly signed momentums) with model-free monitors.",
+  "design_ref": "§3 C05",
+  "note": "rand.Perm / sort.Sort / hashes / ed25519 / momentum VM are parameters or oracle values with explicit hypotheses; "
+          "pillar weights (ComputePillarDelegations) are taken from the real code; cross-node schedule equality after "
+          "restart/reorg is by the cold-vs-cached comparison on one node plus the prefix theorem, not by a multi-node run.",
+  "technique": "Lean 4 proof (induction, permutation reasoning) + regenerated facts (constants, verifier check order from "
+               "the AST) + differential correspondence + model-free monitors",
  },
  "C12": {
   "text": "Kernel-checked theorems over the Go-faithful model of getTargetByDifficulty / greaterDifficulty / "
@@ -60,11 +166,81 @@ TEXT = {
           "enoughPlasma over ledger states is covered by correspondence only.",
   "technique": "Lean 4 proof (omega/induction) + regenerated constants + differential correspondence",
  },
+ "C13": {
+  "text": "Kernel-checked theorems over a byte-exact model of AccountBlock.ComputeHash / Momentum.ComputeHash (hash "
+          "function as parameter): the pre-image determines every covered field for all amounts >= 0 (the sign is the one "
+          "thing lost: negative witness), equal hashes of hash-consistent blocks give equal covered fields recursively "
+          "through descendants, momentums likewise incl. content list and ChangesHash; protobuf: Proto/DeProto round trip, "
+          "proto3 wire encoder/decoder round trip for AccountBlockProto (nested descendants) and MomentumProto, "
+          "Deserialize(Serialize(b)) = b; JSON amount / nonce text forms; generic RLP item round trip. Field order, "
+          "encoders, struct-field coverage, protobuf schema, Proto()/DeProto() assignments, the verifier's amount bound and "
+          "the re-packing of call data are regenerated from the AST / live types of the tree and compared by theorems; "
+          "models tied by a differential stream on pre-image, Serialize(), Deserialize (also on re-arranged wire forms), "
+          "RLP and text-form bytes plus Go-side round-trip and one-field-alteration monitors.",
+  "design_ref": "§3 C13",
+  "note": "Hash function is a parameter; T2 (stored bytes are a function of covered fields and state) and the two-node "
+          "`variants` stream are not built in this round; typed RLP decoding and JSON object structure are covered by "
+          "Go-side round-trip monitors, T4 by an AST fact plus monitors (no Lean model of the ABI).",
+  "technique": "Lean 4 proof (induction/omega/decide) + regenerated AST facts + differential correspondence",
+ },
+ "C19": {
+  "text": "Kernel-checked theorems over the Go-faithful model of wallet/{derivation,keystore,keyfile,crypto,password}.go "
+          "with the primitives as parameters: isValidPath accepts exactly m(/<decimal below 2^32>')+, every HMAC step uses "
+          "an index in [2^31,2^32), DeriveForPath succeeds iff all segments are below 2^31 (DeriveWithIndex iff i < 2^31), "
+          "step input = 0x00||key||be32(i) injective, Decrypt(Encrypt(ks,pw),pw) = ks from open_seal, recorded address = "
+          "index-0 address, address = 0x00||sha3(pk)[:19], sign/verify from verify_sign; tied to the tree by regenerated "
+          "constants (regex text, ParseUint bit size, Argon2 parameters and AD string on both sides read from the AST) and "
+          "a differential stream on the real wallet code with independently computed oracle values.",
+  "design_ref": "§3 C19",
+  "note": "Tamper evidence (wrong password / flipped bit fails) is a cryptographic assumption, covered by the stream's "
+          "monitor only; the JSON text layer is covered by the stream only.",
+  "technique": "Lean 4 proof (induction/omega/simp) + regenerated facts from AST + differential correspondence with oracle tables",
+ },
  "C18": {
   "text": "Kernel-checked theorems that GetRange is the statement's slice for all (index,count,len), pages tile the "
           "list and each element lies on exactly one page; model tied by a differential stream over the full uint32 range.",
   "design_ref": "§3 C18",
   "note": "JSON-RPC server survival and embedded getters are not theorems (runtime / correspondence).",
   "technique": "Lean 4 proof (omega) + differential correspondence",
+ },
+ "C14": {
+  "text": "Kernel-checked theorems over the Go-faithful model of higherPriority (uint64 products), filterBlocksToCommit "
+          "and the per-address memdbManager-backed pool: the competition rule is total/antisymmetric for all uint64 inputs, "
+          "transitive and arrival-order independent in the accepted plasma range (negative witnesses for zero plasma and "
+          "wrap-around), the momentum content is the longest batch-boundary prefix within the limit, and the pooled blocks "
+          "form one chain above the confirmed frontier under all operation sequences; tied by regenerated constants and "
+          "differential streams.",
+  "design_ref": "§3 C14",
+  "note": "Data-race freedom and reader atomicity are runtime properties (not theorems). The pool state machine is a "
+          "hand-written model; the two pure decision functions are tied by differential streams.",
+  "technique": "Lean 4 proof (induction/omega) + regenerated constants + differential correspondence",
+ },
+ "C11": {
+  "text": "Kernel-checked theorems over the Go-faithful model (wrapping int64, truncating big.Int.Quo) of the reward "
+          "arithmetic: rounded-down pro-rata shares never exceed the split amount (stake, sentinel, pillar/backers, "
+          "liquidity stake), the pillar formula stays within (delegation+producing per momentum) x expected momentums, "
+          "and for every uint64 epoch the regenerated emission tables give non-negative pieces that sum to at most the "
+          "network emission per coin; tied by regenerated tables and a differential stream that runs the real contract "
+          "functions on an in-memory storage.",
+  "design_ref": "§3 C11",
+  "note": "Arithmetic part only (T1-T3). Epoch cursor (exactly once, in order), collect-once and node-independence are "
+          "not covered by this check yet.",
+  "technique": "Lean 4 proof (induction/omega/decide over generated tables) + regenerated constants + differential correspondence",
+ },
+ "C20": {
+  "text": "Kernel-checked theorems over the Go-faithful model of NewMomentumContent (sorted by address|height|hash bytes; any two "
+          "sorted arrangements of the same headers are equal, so sort(perm l) = sort l independently of the algorithm), of "
+          "CheckGenesis and its five validators (accepted => entries of every declared token add up to TotalSupply, every given "
+          "token declared, swap contract holds nothing; plasma/pillar holdings and ledger supply under explicit extra premises "
+          "with negative witnesses for the gaps) and of checkGenesisCompatibility (refused iff stored height-1 hash differs); "
+          "tied to the tree by regenerated facts (validator order, comparer operator, header field order, contract addresses) "
+          "and a differential stream on the real NewGenesis / CheckGenesis / chain.Init.",
+  "design_ref": "§3 C20",
+  "note": "Permutation / fresh-process invariance of the whole genesis momentum is decided on the real code by the stream's "
+          "monitor, not by a theorem. Four accepted-but-inconsistent configuration classes (no contract entry, duplicate address entry, supply above "
+          "MaxSupply, negative amounts) and a (nil,nil) return of ReadGenesisConfigFromFile are reproduced on the real code "
+          "on every run and listed as known findings F13a-e.",
+  "technique": "Lean 4 proof (core List.mergeSort/Perm lemmas, induction, decide witnesses) + regenerated facts from AST + "
+               "differential correspondence + ledger monitor on a real chain",
  },
 }
